@@ -1,35 +1,34 @@
 package main
 
 // Store-level traces: the storage call log of one statement, validated by
-// TraceStore.tla against the KvStore contract (C11, C12, C13).
+// TraceStore.tla against the KvStore / KvExec contract (C11, C12, C13).
 
-type pairJ struct {
-	K []int `json:"k"`
-	V []int `json:"v"`
+import (
+	"encoding/json"
+	"flag"
+	"fmt"
+)
+
+type obsJ struct {
+	K     []int `json:"k"`
+	Found bool  `json:"found"`
+	V     []int `json:"v"`
 }
 
 type storeTrace struct {
-	ID       string   `json:"id"`
-	Q        string   `json:"q"`
-	Kind     string   `json:"kind"` // select | delete | put | remove
-	Before   []pairJ  `json:"before"`
-	Selected [][]int  `json:"selected"` // delete: keys the contract selects; remove: keys to remove
-	Writes   []pairJ  `json:"writes"`   // put: the evaluated pairs in order
-	EvalFails bool    `json:"evalfails"` // put/remove: some key/value expression fails
-	Events   []Event  `json:"events"`
-	After    []pairJ  `json:"after"`
-	Modelled bool     `json:"modelled"` // contract expectation present
-	Phase    string   `json:"phase"`
-	ErrKind  string   `json:"errkind"`
-	FaultAt  int      `json:"faultat"`
-}
-
-func encPairs(p []KV) []pairJ {
-	r := make([]pairJ, len(p))
-	for i, x := range p {
-		r[i] = pairJ{bi(x.K), bi(x.V)}
-	}
-	return r
+	ID       string  `json:"id"`
+	Q        string  `json:"q"`
+	Kind     string  `json:"kind"` // select | delete | put | remove
+	Stmt     *Stmt   `json:"stmt"`
+	HasStmt  bool    `json:"hasstmt"` // the contract can recompute the expectation from stmt
+	Before   []SPair `json:"before"`
+	Events   []Event `json:"events"`
+	After    []SPair `json:"after"`
+	Observed []obsJ  `json:"observed"` // follow-up `select * where key = k` per written/removed key
+	Phase    string  `json:"phase"`
+	ErrKind  string  `json:"errkind"`
+	FaultAt  int     `json:"faultat"`
+	NRows    int     `json:"nrows"`
 }
 
 func storeEvents(log []Event) []Event {
@@ -50,4 +49,164 @@ func storeEvents(log []Event) []Event {
 		out = append(out, e)
 	}
 	return out
+}
+
+type stmtCase struct {
+	Kind  string  `json:"kind"`
+	ID    string  `json:"id"`
+	Stmt  *Stmt   `json:"stmt"`
+	Store []SPair `json:"store"`
+	Polls string  `json:"polls"` // per-poll modes, e.g. "rb"; "" = both pure modes
+	After int     `json:"after"` // extra polls after the end of stream
+	Raw   string  `json:"raw"`   // raw query text (rejected-statement cases)
+}
+
+// runStoreCase runs one statement and returns its store trace.
+func runStoreCase(id string, st *Stmt, raw string, store []SPair, o RunOpts) storeTrace {
+	q := raw
+	kind := "select"
+	if st != nil {
+		q = st.Text()
+		kind = st.Kind
+	}
+	pairs := kvOf(store)
+	out, sh := RunOn(q, pairs, o)
+	tr := storeTrace{ID: id, Q: q, Kind: kind, Stmt: st, HasStmt: st != nil, Before: store, Events: storeEvents(sh.Log),
+		After: plainPairs(sh.St.Snapshot()), Observed: []obsJ{}, Phase: out.Phase, ErrKind: out.ErrKind, FaultAt: o.FaultAt, NRows: len(out.Rows)}
+	if tr.Stmt == nil {
+		tr.Stmt = &Stmt{Kind: "select"}
+		tr.Stmt.fix()
+	}
+	// follow-up point selects on the post-state (C12: "a following select observes them")
+	if o.FaultAt == 0 && (kind == "put" || kind == "remove") && out.Phase == "done" {
+		seen := map[string]bool{}
+		for _, e := range sh.Log {
+			var ks [][]int
+			switch e.Op {
+			case "Put", "Delete":
+				ks = [][]int{e.K}
+			case "BatchPut", "BatchDelete":
+				ks = e.Ks
+			}
+			for _, k := range ks {
+				key := string(ib(k))
+				if seen[key] || !plainLiteral(key) {
+					continue
+				}
+				seen[key] = true
+				sel := "select * where key = " + quoteStr([]byte(key))
+				so := RunQuery(sel, NewRec(&Shared{St: sh.St, Quiet: true}, 0), nil, RunOpts{Mode: "row", BSize: 2, Cache: true, NoLog: true})
+				ob := obsJ{K: k, V: []int{}}
+				if so.Phase == "done" && len(so.Rows) == 1 && len(so.Rows[0]) == 2 {
+					ob.Found = true
+					ob.V = so.Rows[0][1].S
+				} else if so.Phase != "done" || len(so.Rows) > 1 {
+					ob.Found = true
+					ob.V = bi([]byte("<<select failed: " + so.Phase + " " + so.ErrMsg + ">>"))
+				}
+				tr.Observed = append(tr.Observed, ob)
+			}
+		}
+	}
+	return tr
+}
+
+func plainLiteral(s string) bool {
+	for i := 0; i < len(s); i++ {
+		if s[i] == '\'' || s[i] == '"' || s[i] == '`' {
+			return false
+		}
+	}
+	return true
+}
+
+func init() {
+	replayFamilies["stmts"] = replayStmts
+}
+
+func replayStmts(args []string) {
+	c := parseCommon("stmts", args, func(fs *flag.FlagSet) {})
+	out := NewOut(c.out, c.prop)
+	defer out.Close()
+	idx := 0
+	bsizes := []int{1, 2, 32}
+	err := readTLCLines(c.in, func(raw []byte) {
+		var sc stmtCase
+		if err := json.Unmarshal(raw, &sc); err != nil {
+			out.Infra = append(out.Infra, "bad line: "+err.Error())
+			return
+		}
+		if sc.Kind != "case" {
+			return
+		}
+		idx++
+		if (idx-1)%c.shards != c.shard {
+			return
+		}
+		if sc.Stmt != nil {
+			sc.Stmt.fix()
+		}
+		sc.Store = fixSPairs(sc.Store)
+		sc.ID = shortHash(raw)
+		if sc.Raw != "" {
+			sc.Stmt = nil
+		}
+		if c.only != "" && c.only != sc.ID {
+			return
+		}
+		out.Stats.Cases++
+		q := sc.Raw
+		if sc.Stmt != nil {
+			q = sc.Stmt.Text()
+		}
+		out.Stats.distinct(q, len(sc.Store) > 0 || (sc.Stmt != nil && sc.Stmt.Kind != "select" && sc.Stmt.Kind != "delete"))
+		if out.Stats.Cases%97 == 1 {
+			out.Stats.sample(map[string]any{"id": sc.ID, "query": q, "store_pairs": len(sc.Store)})
+		}
+		switch c.prop {
+		case "C13":
+			for _, mode := range []string{"row", "batch"} {
+				for _, bs := range []int{2, 32} {
+					base := runStoreCase(fmt.Sprintf("%s#%s%d-f0", sc.ID, mode, bs), sc.Stmt, sc.Raw, sc.Store, RunOpts{Mode: mode, BSize: bs, Cache: true})
+					out.Stats.Evaluations++
+					out.Trace("store", base)
+					n := 0
+					for _, e := range base.Events {
+						switch e.Op {
+						case "Get", "Put", "BatchPut", "Delete", "BatchDelete", "Cursor", "Seek", "Next":
+							n++
+						}
+					}
+					for i := 1; i <= n; i++ {
+						tr := runStoreCase(fmt.Sprintf("%s#%s%d-f%d", sc.ID, mode, bs, i), sc.Stmt, sc.Raw, sc.Store, RunOpts{Mode: mode, BSize: bs, Cache: true, FaultAt: i})
+						out.Stats.Evaluations++
+						out.Trace("store", tr)
+					}
+					out.Stats.bump("fault-positions")
+				}
+			}
+		default: // C11, C12
+			type pm struct {
+				mode, alt string
+			}
+			pms := []pm{{"row", ""}, {"batch", ""}}
+			if sc.Polls != "" {
+				pms = []pm{{"row", sc.Polls}}
+			}
+			for _, m := range pms {
+				for _, bs := range bsizes {
+					if sc.Stmt != nil && sc.Stmt.Kind != "delete" && bs != bsizes[0] {
+						continue
+					}
+					tr := runStoreCase(fmt.Sprintf("%s#%s%s%d", sc.ID, m.mode, m.alt, bs), sc.Stmt, sc.Raw, sc.Store,
+						RunOpts{Mode: m.mode, AltModes: m.alt, BSize: bs, Cache: true, PollsAfterEnd: sc.After})
+					out.Stats.Evaluations++
+					out.Trace("store", tr)
+				}
+			}
+		}
+	})
+	if err != nil {
+		out.Infra = append(out.Infra, err.Error())
+	}
 }
